@@ -399,6 +399,35 @@ def _eigh(eng, b, func, out):
         if Q_t.numel():
             bind_out(eng, Q_t, Q, override_shadow=True)
         return None
+    if n == 2:
+        # closed form for a symmetric 2x2 (reads the lower triangle like LAPACK with UPLO="L"):
+        #   w = (a+c)/2 -+ r,  r = sqrt(((a-c)/2)^2 + b^2) ;  v = (b, w - a) / |.|     generic case b != 0
+        W = np.empty(A.shape[:-1], dtype=object)
+        Q = np.empty(A.shape, dtype=object)
+        half = Fraction(1, 2)
+        for idx in batch_iter(A.shape[:-2]):
+            a, bb, c = A[idx + (0, 0)], A[idx + (1, 0)], A[idx + (1, 1)]
+            if T.is_const(bb) and bb == 0:
+                raise UnsupportedOp("_linalg_eigh: diagonal 2x2 handled elsewhere")
+            m = T.mul(T.add(a, c), half)
+            dlt = T.mul(T.sub(a, c), half)
+            r = T.sqrt(T.add(T.mul(dlt, dlt), T.mul(bb, bb)))
+            if T.is_term(r):
+                T.declare_positive(r)
+            eng.require_defined(T.ne(bb, 0), "eigh 2x2 closed form: off-diagonal entry non-zero (generic case)")
+            for k, lam in enumerate((T.sub(m, r), T.add(m, r))):
+                W[idx + (k,)] = lam
+                v0, v1 = bb, T.sub(lam, a)
+                nrm = T.sqrt(T.add(T.mul(v0, v0), T.mul(v1, v1)))
+                if T.is_term(nrm):
+                    T.declare_positive(nrm)
+                Q[idx + (0, k)] = T.div(v0, nrm)
+                Q[idx + (1, k)] = T.div(v1, nrm)
+        eng.stub_log.append(("_linalg_eigh", "closed form 2x2"))
+        bind_out(eng, w_t, W, override_shadow=True)
+        if Q_t.numel():
+            bind_out(eng, Q_t, Q, override_shadow=True)
+        return None
     raise UnsupportedOp("_linalg_eigh on an unregistered symbolic matrix")
 
 
